@@ -141,6 +141,12 @@ theorem rowop_wf (f : RowOp) (r : SRow) (hr : r.WF) (hp : f.pre r) : (f.sparse r
   | normalize => exact ⟨sorted_normalize hs, below_normalize hb⟩
   | permute c => exact ⟨sorted_permute hs c, below_permute hb c hp⟩
 
+/- About the hypotheses of the next theorems: `hr : r.WF` is the representation invariant of the
+   type (Appendix B writes `SMap` for "sorted association list"; here the order and the bound
+   `keys < size` are a predicate on plain lists so that the driver can run the same functions on
+   journal data); `hp : f.pre r` is the side condition that the C++ function asserts
+   (`i < size()`, `start <= end <= size()`, …).  Neither restricts sizes or values. -/
+
 /-- **Dense ≡ sparse, row transformers.**  For every modelled operation (`insert`, `reset`,
 range reset, `reset_after`, `swap_coefficients`, both index shifts, `resize`, `add_mul_assign`,
 `mul_assign`/`negate` on a sub-range, `linear_combine` on a sub-range, `normalize`, permutation
